@@ -27,7 +27,7 @@ for p in props:
 hooks = json.load(open(os.path.join(V, 'tools', 'hooks.json')))
 m = {
     "version": 1,
-    "setup_cmd": "cd /verif && GOFLAGS=-mod=mod GOPROXY=off GOSUMDB=off GOTOOLCHAIN=local go build -o vcheck ./cmd/vcheck && ./vcheck build-all",
+    "setup_cmd": "cd /verif && GOFLAGS=-mod=mod GOPROXY=off GOSUMDB=off GOTOOLCHAIN=local ./vcheck build-all",
     "hooks": hooks,
     "engines": [{"name": "vcheck", "path": "/verif/cmd/vcheck", "serves_properties": [c["property_id"] for c in checks],
                  "kind_free_text": "driver: rebuilds the check's Go test binary from /repo's working tree with -tags verif, runs rapid (pgregory.net/rapid v1.3.0) property legs in up to 16 seeded shards, plain enumeration legs and (thorough only) native go fuzz legs; merges evidence; classifies violations by root-cause signature against known_findings.json"}],
